@@ -14,6 +14,18 @@ CHECKS = [
   "all schedules with at most 2 (thorough 3-4) deviations from the default schedule of {fan-out, VM run loops, line feeder, reloader(s)} on the instrumented real Runtime/VM/Store: every line counted once by the shared counter, by exactly one program version, gauge writes in arrival order",
   "scheduling points are the synchronisation operations (mutex, rwmutex, waitgroup, atomics, channel ops, go) of metrics, datum, runtime and vm; code between two points runs atomically; deviation bound, not full interleaving coverage; a shutdown hang when a reload lands after end of input is observed but outside this property's statement",
   "stateless model checking of the implementation under a controlled scheduler (iterative deviation bounding, DFS, replay-confirmed counterexamples)", "§3 C20"),
+ ("C03", "seqx", "exploration",
+  "all byte strings of length<=2, all token sequences of length<=3 (thorough 4) over a 60-token alphabet, every prefix and single-token deletion (thorough: duplication, 4 replacements) of every example program, nesting families of depth 1..300 for six constructs (across the recursion limit), regex lengths across 1024, unterminated strings/regexes: no panic, exactly one of {code, non-empty errors}, termination (30 s watchdog, twice), identical second compile",
+  "arbitrary long inputs are not enumerated; termination is judged by a generous watchdog, never by a short deadline",
+  "exhaustive small-scope input enumeration plus systematic single-edit neighbourhoods of a corpus, on the real compiler", "§3 C03"),
+ ("C05", "seqx", "exploration",
+  "9 program families built around the state a VM carries between lines (strptime memo, time register, terminate flag, match registers, matched flag) × all (history, line) pairs with |history|<=2 (thorough 3) over each family's line alphabet; differential oracle: VM with history vs a freshly compiled VM populated with the same metric values",
+  "histogram metrics are not in the families (their state cannot be populated through the public API); datum timestamps are compared through timestamp() values stored in gauges",
+  "exhaustive bounded history enumeration with a differential oracle on the real VM", "§3 C05"),
+ ("C07", "seqx", "exploration",
+  "one program with a strptime site per layout (9 layouts), a settime site per value (7) and a plain site; all line sequences of length<=2 (thorough 3) × 4 zones × syslog-current-year on/off, plus a run crossing the memo size; oracle is time.Parse/ParseInLocation with the documented year substitution, and a clock bracket for processing time",
+  "layout and value families are fixed finite sets; the yearless substitution reads the same clock as the VM",
+  "exhaustive bounded enumeration of configurations and line sequences against the standard library as specification", "§3 C07"),
  ("C08", "seqx", "exploration",
   "all ordered pairs of label tuples (arity 1-2) over all strings up to length 2 (thorough 3) of {a,-,\\,0xFF}, and all tuples of arity 3-4 in one metric: create/find/write/expire/delete one tuple while observing the other, on the real Metric",
   "small-scope: longer label strings are not enumerated; the alphabet contains the separator and the escape character of the key encoding, which is what collisions are made of",
